@@ -15,7 +15,9 @@
 // on the same Conn); part E (nego: "nrun" lines, the Conn is not primed and
 // negotiates its versions from scripted ApiVersions answers); part F (reads:
 // Batch.Read / ReadMessage, Conn.Read / ReadMessage with short buffers; ops
-// fetchread, connread, connreadmsg carry a 4th field, the read actions).  The OCaml driver
+// fetchread, connread, connreadmsg carry a 4th field, the read actions); part G
+// (readcut: the short-buffer reads of part F on a response cut before, inside
+// and after the value).  The OCaml driver
 // evaluates the extracted Coq model (Model/ConnOps.v conn_run) on the part
 // before the first '|'.
 package main
@@ -1383,8 +1385,73 @@ func genAll(seed int64, tier string) {
 	nD := genFraming(seed + 9999)
 	nE := genNego(seed + 11111)
 	nF := genReads(seed + 22222)
-	fmt.Fprintf(os.Stderr, "c11: part A %d cases, part B %d cases, part C %d cases, part D %d cases, part E %d cases, part F %d cases\n",
-		counts["A"], counts["B"], nC, nD, nE, nF)
+	nG := genReadCut(seed + 33333)
+	fmt.Fprintf(os.Stderr, "c11: part A %d cases, part B %d cases, part C %d cases, part D %d cases, part E %d cases, part F %d cases, part G %d cases\n",
+		counts["A"], counts["B"], nC, nD, nE, nF, nG)
+}
+
+// ---------------------------------------------------------------------------
+// PART G: the short-buffer reads of part F on a response that is cut before,
+// inside and after the value of the first message (a connection lost inside a
+// value longer than the buffer must not be reported as io.ErrShortBuffer).
+// ---------------------------------------------------------------------------
+
+func genReadCut(seed int64) int {
+	r := rand.New(rand.NewSource(seed))
+	count := 0
+	hb := opSpec{"heartbeat", 0, 0}
+	for _, ver := range []int{2, 10} {
+		for _, kind := range []int{msV0, msV1, msV2} {
+			var off int64
+			if r.Intn(3) == 0 {
+				off = r.Int63n(1 << 40)
+			} else {
+				off = int64(r.Intn(1000))
+			}
+			var fr []byte
+			vs := -1
+			for vs < 0 { // the value must occur once in the frame, so that it can be located
+				msgs := []drainMsg{
+					{off: off, val: make([]byte, 20)},
+					{off: off + 1, key: rsmall(r, 4), val: make([]byte, 5)},
+				}
+				r.Read(msgs[0].val)
+				r.Read(msgs[1].val)
+				fr = frame(2, fetchBodyF(r, ver, off+100, buildMsgSet(r, kind, msgs)))
+				if strings.Count(string(fr), string(msgs[0].val)) == 1 {
+					vs = strings.Index(string(fr), string(msgs[0].val))
+				}
+			}
+			ve := vs + 20
+			type cutAt struct {
+				k   int
+				rel string
+			}
+			cuts := []cutAt{{3, "before"}, {8, "before"}, {vs - 1, "before"}}
+			for k := vs; k < ve; k++ {
+				cuts = append(cuts, cutAt{k, "inside"})
+			}
+			cuts = append(cuts, cutAt{ve, "after"}, cutAt{ve + 1, "after"}, cutAt{len(fr) - 1, "after"})
+			for _, o := range []struct {
+				name string
+				cap  int64
+			}{{"fetchread", 0}, {"fetchread", 1}, {"fetchread", 19}, {"connread", 1}, {"connread", 19}} {
+				for _, c := range cuts {
+					emit(&tcase{
+						topic:  ownTopic,
+						ops:    []opSpec{{o.name, ver, off}, hb},
+						acts:   map[int][]int64{0: {o.cap}},
+						frames: [][]byte{fr, frame(3, []byte{0, 0})},
+						cut:    c.k,
+						tags: fmt.Sprintf("readcut,op=%sv%d,msgset=%s,cap=%d,cutrel=%s,vs=%s,ve=%s,next=heartbeatv0",
+							o.name, ver, msTag(kind), o.cap, c.rel, kvfmt.U(uint64(vs)), kvfmt.U(uint64(ve))),
+					})
+					count++
+				}
+			}
+		}
+	}
+	return count
 }
 
 // ---------------------------------------------------------------------------
